@@ -104,15 +104,30 @@ prop('C21',
      level_text='One-step bounded model checking of the real per-opcode handlers from an arbitrary register state against an independently written wide-arithmetic specification.',
      level_note='Trusted: Kani/CBMC/cadical, split_registers model (checked natively).')
 
+prop('C24',
+     builds=[dict(crate='vm', filters=['c24_'])],
+     default=dict(mem=10, timeout={'quick': 900, 'thorough': 2400}),
+     min_harnesses={'quick': 10, 'thorough': 10},
+     functions_encoded=['<op::{SB,SQW,SHW,SW,LB,LQW,LHW,LW,MCLI,MCPI} as Execute>::execute', 'Interpreter::{store_u8..u64, load_u8..u64, memclear, memcopy, ownership_registers}',
+                        'MemoryInstance::{write, write_bytes, read_bytes, verify, memcopy}', 'OwnershipRegisters::{new, verify_ownership}'],
+     bounds=['pre-state: VMINV with stack.len() = 32, heap.len() = 16, hp symbolic, all bytes symbolic, no call frame ($fp = 0, prev_hp = VM_MAX_RAM)',
+             'all register ids/values, immediates, symbolic gas schedule; MCLI length <= 7, MCPI length 1..4',
+             'memory effect decided with one symbolic probe address (= every address)'],
+     assumptions=[VM_STUBS_NOTE, 'VMINV: $is<=$ssp<=$sp<=$hp<=VM_MAX_RAM, $hp == memory.hp, $sp <= stack.len(), $cgas<=$ggas, pc aligned and in range'],
+     out_of_claim=['MCL/MCP/MEQ with register lengths, PSHL/PSHH/POPL/POPH, CFE/CFEI/CFS/CFSI, ALOC, hash/crypto/storage destinations, CALL/LDC frame and code writes (not yet built)',
+                   'states with a call frame (prev_hp from the frame): ownership formula itself is decided for all prev_hp in C23 c23_ownership'],
+     level_text='One-step bounded model checking of the memory store/load/clear/copy handlers from an arbitrary VMINV state with symbolic memory against the ownership set definition and a "nothing else changed" probe.',
+     level_note='Trusted: Kani/CBMC/cadical, split_registers model.')
+
 prop('C25',
      builds=[dict(crate='vm', filters=['c25_'])],
      default=dict(mem=6, timeout={'quick': 600, 'thorough': 1800}),
-     min_harnesses={'quick': 12, 'thorough': 12},
-     functions_encoded=['<op::{JI,JMP,JNE,JNEI,JNZI,JMPF,JMPB,JNZF,JNZB,JNEF,JNEB,JAL} as Execute>::execute', 'interpreter::flow::JumpArgs::jump',
+     min_harnesses={'quick': 13, 'thorough': 13},
+     functions_encoded=['Interpreter::fetch_instruction', '<op::{JI,JMP,JNE,JNEI,JNZI,JMPF,JMPB,JNZF,JNZB,JNEF,JNEB,JAL} as Execute>::execute', 'interpreter::flow::JumpArgs::jump',
                         'Interpreter::jump', 'interpreter::internal::{inc_pc, write_user_register}', 'gas::gas_charge'],
      bounds=['all register ids and values, all immediates, symbolic gas schedule; target computed in 128-bit arithmetic on the specification side'],
      assumptions=[VM_STUBS_NOTE, 'pre-state: $cgas <= $ggas, $pc < VM_MAX_RAM', 'JAL with link register == target register is left unspecified (assumed away)'],
-     out_of_claim=['fetch_instruction executable-region check (needs symbolic memory; planned with C24)', 'every non-jump handler asserts pc+4 in its own property harness'],
+     out_of_claim=['every non-jump handler asserts pc+4 in its own property harness'],
      level_text='One-step bounded model checking of every jump handler from an arbitrary register state against the wide-arithmetic target formula.',
      level_note='Trusted: Kani/CBMC/cadical, split_registers model.')
 
